@@ -1,6 +1,7 @@
 import GramModel.Check
 import GramModel.Oracle
 import GramModel.Lemmas.Oracle
+import GramModel.Lemmas.Whnf
 
 /-!
 # C06 — definitional equality used by the checker agrees with evaluation
@@ -71,3 +72,39 @@ theorem C06_unify_refl : C06_unify_refl_stmt := by
   refine ⟨t.size + 2, fun f hf => ?_⟩
   rw [OracleLemmas.unifyS_refl_holeFree t f ht hf]
   rfl
+
+/-! ## The two normalizers agree -/
+
+/-- The store-layer normalizer (the model of `normalize_weak_head`, used by gram's checker) and the
+independent checker's normalizer compute the same weak head normal form on hole-free terms under the
+same definitions context, whenever both answer. -/
+def C06_whnf_layers_agree_stmt : Prop :=
+  ∀ (f g : Nat) (t r r' : Tm) (s s' : St), t.holeFree = true → s.store = [] →
+    (∀ e ∈ s.dctx, ∀ d o, e = some (d, o) → d.holeFree = true) →
+    whnfS f t s = .ok r s' → whnfX g s.dctx t = some r' → r = r'
+theorem C06_whnf_layers_agree : C06_whnf_layers_agree_stmt := by
+  intro f g t r r' s s' ht _ hD h hx
+  exact (WhnfLemmas.whnf_agree f t s r s' ht hD h).2.2 g r' hx
+
+/-- The same without the assumption on the store (a hole-free term never reads it), and with the two
+facts the induction carries along: the run of the store-layer normalizer leaves the whole state
+(store, contexts, diagnostics) as it was, and its result is again hole-free. -/
+def C06_whnf_layers_agree_strong_stmt : Prop :=
+  ∀ (f : Nat) (t r : Tm) (s s' : St), t.holeFree = true →
+    (∀ e ∈ s.dctx, ∀ d o, e = some (d, o) → d.holeFree = true) →
+    whnfS f t s = .ok r s' →
+    s' = s ∧ r.holeFree = true ∧ ∀ (g : Nat) (r' : Tm), whnfX g s.dctx t = some r' → r = r'
+theorem C06_whnf_layers_agree_strong : C06_whnf_layers_agree_strong_stmt := by
+  intro f t r s s' ht hD h
+  exact WhnfLemmas.whnf_agree f t s r s' ht hD h
+
+-- non-vacuity: both normalizers answer, with the same term, on a group with a recursive unfolding,
+-- a β-redex, arithmetic and a conditional, under a context with a definition
+example :
+    (match whnfS 30 (.letg (.cons 1 .int (.lit 2) .nil)
+                (.ite (.bin .lt (.var 1 0) (.var 2 1)) (.app (.lam 3 false .int (.neg (.var 3 0))) (.var 1 0)) .tt))
+              { dctx := [some (.lit 5, 1)] },
+           whnfX 30 [some (.lit 5, 1)] (.letg (.cons 1 .int (.lit 2) .nil)
+                (.ite (.bin .lt (.var 1 0) (.var 2 1)) (.app (.lam 3 false .int (.neg (.var 3 0))) (.var 1 0)) .tt)) with
+     | .ok r _, some r' => r == r' && r == .lit (-2)
+     | _, _ => false) = true := by decide
